@@ -185,7 +185,7 @@ class ObsModel:
 
 def qlt_expect(data, offset, mtu):
     """-> (payload bytes, more flag) for a QueryLargeTlv at `offset` over platform data `data`"""
-    cap = max(0, mtu - 34)
+    cap = max(0, min(mtu - 34, 0x3FFF))      # the length word has 14 count bits (bit 15 'more', bit 14 reserved)
     remain = max(0, len(data) - offset)
     ln = min(cap, remain)
     return data[offset:offset + ln], remain > ln
